@@ -42,7 +42,7 @@ REGISTRY = {
     "C03": eval_family([props.gen_C03]),
     "C04": eval_family([props.gen_C04], [props.judge_groups]),
     "C10": eval_family([props.gen_C10], [props.judge_pairs]),
-    "C11": eval_family([props.gen_C11], [props.judge_laws]),
+    "C11": eval_family([props.gen_C11, props.gen_C11_big], [props.judge_laws, shellprops.judge_shell]),
     "C12": eval_family([props.gen_C12], [props.judge_pairs, props.judge_laws]),
     "C13": eval_family([props.gen_C13], [props.judge_laws]),
     "C15": eval_family([props.gen_C15], [props.judge_groups]),
@@ -79,6 +79,8 @@ def describe_case(case):
         d = {"format": f[0], "model": gen.unhx(f[1]), "formula_file": gen.unhx(f[2]), "print_option": f[3], "context": f[4]}
     elif k == "CONV":
         d = {"network": gen.unhx(f[0])}
+    elif k == "EQV":
+        d = {"k": f[0], "network": gen.unhx(f[1][2:])[:400], "context": f[2][:300], "formula_pairs": lst(f[3])}
     else:
         d = {"fields": f}
     d.update({"kind": k, "tag": case.get("tag")})
